@@ -14,4 +14,28 @@ func main
   modifies *
   modifies ghost(exitFatal, appErr, cbLen, cbErr, cbNode, cbStop, cbRet, cbLineNo, cbLine, cbHeader, cbElems, cbNElems, scRd, scPos, privLo, evOf, accKey, accP, accN, accH, bufSink, bufSticky, sinkFailed, sinkPend, prLen, prSink, prArg, prArgs, csvLen, csvW, csvN, csvRow, tnodes, tdepth, tmax, tmapOf, jlen, tvLen, tv, tseg, tvSet, adLen, adName, adVal, adSep, adRoot, procLen, procTime, procSrc, lastOpen, cfgRd)
   ensures @error-is-fatal [C17 C09 C10] appErr != nil ==> exitFatal
+
+// ---------------------------------------------------------------------------------------------
+// The flag table (C16): the documented settings with their HR_* environment variables and defaults (README
+// "GLOBAL OPTIONS"): database food.yaml [$HR_DATABASE], logfile log.yaml [$HR_LOGFILE], config [$HR_CONFIG],
+// date-format 2006/01/02 [$HR_DATE_FORMAT], maxdepth 10 [$HR_MAXDEPTH]; begin / end / today / no-color /
+// no-database have no environment variable. Asserted where the table is complete (before the commands are built).
+// ---------------------------------------------------------------------------------------------
+macro StrFlagIs(f cli.Flag, name string, def string, env string) bool := typeis(f, "*cli.StringFlag") && payload(f) != 0 && ptr(cli.StringFlag, payload(f)).Name == name && ptr(cli.StringFlag, payload(f)).Value == def && len(ptr(cli.StringFlag, payload(f)).EnvVars) == 1 && ptr(cli.StringFlag, payload(f)).EnvVars[0] == env
+macro StrFlagNoEnv(f cli.Flag, name string) bool := typeis(f, "*cli.StringFlag") && payload(f) != 0 && ptr(cli.StringFlag, payload(f)).Name == name && len(ptr(cli.StringFlag, payload(f)).EnvVars) == 0
+macro BoolFlagNoEnv(f cli.Flag, name string) bool := typeis(f, "*cli.BoolFlag") && payload(f) != 0 && ptr(cli.BoolFlag, payload(f)).Name == name && !ptr(cli.BoolFlag, payload(f)).Value && len(ptr(cli.BoolFlag, payload(f)).EnvVars) == 0
+
+func GetApp returns (a)
+  props C16 C08
+  modifies *
+  ghost before call 1 Command {
+    assert @flag-count [C16] len(a.Flags) == 10
+    assert @period-flags [C16] StrFlagNoEnv(a.Flags[0], "begin") && StrFlagNoEnv(a.Flags[1], "end") && StrFlagNoEnv(a.Flags[2], "today")
+    assert @database [C16] StrFlagIs(a.Flags[3], "database", "food.yaml", "HR_DATABASE")
+    assert @logfile [C16] StrFlagIs(a.Flags[4], "logfile", "log.yaml", "HR_LOGFILE")
+    assert @config [C16] typeis(a.Flags[5], "*cli.StringFlag") && ptr(cli.StringFlag, payload(a.Flags[5])).Name == "config" && len(ptr(cli.StringFlag, payload(a.Flags[5])).EnvVars) == 1 && ptr(cli.StringFlag, payload(a.Flags[5])).EnvVars[0] == "HR_CONFIG"
+    assert @date-format [C16] StrFlagIs(a.Flags[6], "date-format", "2006/01/02", "HR_DATE_FORMAT")
+    assert @maxdepth [C16 C11] typeis(a.Flags[7], "*cli.IntFlag") && ptr(cli.IntFlag, payload(a.Flags[7])).Name == "maxdepth" && ptr(cli.IntFlag, payload(a.Flags[7])).Value == 10 && len(ptr(cli.IntFlag, payload(a.Flags[7])).EnvVars) == 1 && ptr(cli.IntFlag, payload(a.Flags[7])).EnvVars[0] == "HR_MAXDEPTH"
+    assert @switches [C16] BoolFlagNoEnv(a.Flags[8], "no-color") && BoolFlagNoEnv(a.Flags[9], "no-database")
+  }
 @*/
